@@ -205,9 +205,19 @@ fn run_child(shape: &str, n: usize) -> Result<f64, String> {
                     .ok_or_else(|| format!("no CPU line in child output: {out:?}"));
             }
             Ok(None) => {
-                if start.elapsed().as_secs() > 120 {
+                // the limit is on the child's own CPU time (a busy machine stretches wall time);
+                // wall time only catches a child that neither finishes nor computes
+                let cpu = std::fs::read_to_string(format!("/proc/{}/stat", child.id()))
+                    .ok()
+                    .and_then(|st| {
+                        let rest = st.rsplit_once(')')?.1.to_string();
+                        let f: Vec<&str> = rest.split_whitespace().collect();
+                        Some((f.get(11)?.parse::<f64>().ok()? + f.get(12)?.parse::<f64>().ok()?) / 100.0)
+                    })
+                    .unwrap_or(0.0);
+                if cpu > 120.0 || start.elapsed().as_secs() > 1200 {
                     let _ = child.kill();
-                    return Err("child did not finish within 120 s (hang or super-linear work)".into());
+                    return Err(format!("child did not finish within 120 s of CPU time (used {cpu:.0} s; hang or super-linear work)"));
                 }
                 std::thread::sleep(std::time::Duration::from_millis(20));
             }
@@ -456,7 +466,7 @@ pub fn run_check(ctx: &Ctx) -> i32 {
         }
     }
     ctx.sample(json!({"kind": "shape", "shapes": SHAPES, "n": base, "n4": 4 * base}));
-    ctx.level_done(&format!("(d) {} scaled shapes at n={base} and 4n in a child process (CPU ratio, exit status, 120 s limit)", SHAPES.len()));
+    ctx.level_done(&format!("(d) {} scaled shapes at n={base} and 4n in a child process (CPU ratio, exit status, 120 s CPU limit)", SHAPES.len()));
     ctx.finish(
         "model_checking",
         RULE,
